@@ -98,6 +98,7 @@ class Control:
             op.update(kw)
             op['done'] = True
             self.progress += 1
+            op['seq'] = self.progress
             if not self.free and self.pos < len(self.schedule) and tuple(self.schedule[self.pos]) == (op.thread, op.idx):
                 self.pos += 1
                 if self.pos >= len(self.schedule):
@@ -439,8 +440,8 @@ class Session:
                 ctl.pt_count += 1
                 ctl.traces.setdefault(th._vkey, [])
             op = ctl.before('th_start', th._vkey)
+            ctl.after(op)          # stamped before the thread exists, so that its operations are ordered after this one
             real_start(th)
-            ctl.after(op)
 
         def pt_run(th):
             ctl.register(th._vkey)
@@ -472,6 +473,33 @@ class Session:
             ctl.after(op, result=r)
             return r
         PT.start, PT.join, PT.is_alive, PT.run = pt_start, pt_join, pt_alive, pt_run
+        real_init = PT.__init__
+
+        class RecDict:
+            """the seat table as the seat threads see it: the SAME dict the main thread uses, accesses logged"""
+
+            def __init__(self, d):
+                self.d = d
+
+            def __getitem__(self, k):
+                op = ctl.before('tn_read', 'team_names', key=str(k))
+                v = self.d[k]
+                ctl.after(op, value=v)
+                return v
+
+            def __setitem__(self, k, v):
+                op = ctl.before('tn_write', 'team_names', key=str(k), value=v)
+                self.d[k] = v
+                ctl.after(op)
+
+            def items(self):
+                return self.d.items()
+
+        def pt_init(th, *a, **kw):
+            if 'team_names' in kw and isinstance(kw['team_names'], dict):
+                kw['team_names'] = RecDict(kw['team_names'])
+            real_init(th, *a, **kw)
+        PT.__init__ = pt_init
         threads = []
         try:
             server = server_mod.Server('fake', 2000, pathlib.Path(self.out_path), self.boards)
@@ -505,8 +533,8 @@ class Session:
                 gate[i].wait()
                 try:
                     if spec.get('raw'):
-                        spec['raw'](self.net, 2000, lambda: gate[i + 1].set())
-                        self.client_results[key] = 'raw done'
+                        got = spec['raw'](self.net, 2000, lambda: gate[i + 1].set())
+                        self.client_results[key] = 'raw: ' + repr(got)
                     else:
                         c = client_mod.Client(player=spec['seat'], team_name=spec['team'], bidding_system=spec['bidding'],
                                               playing_system=spec['playing'], ip_address='fake', port=2000)
@@ -570,6 +598,7 @@ class Session:
             for t in threads:
                 t.join(2.0)
             PT.start, PT.join, PT.is_alive, PT.run = real_start, real_join, real_alive, real_run
+            PT.__init__ = real_init
             for (mod, name), val in saved.items():
                 setattr(mod, name, val)
         self.result['traces'] = {k: [dict(o) for o in tr] for k, tr in ctl.traces.items()}
